@@ -133,7 +133,8 @@ Definition run_range (c : value) : value :=
   match c with
   | VL [VI 0; VI f; VI t; VI s] => range_obs (mk_num f t s)
   | VL [VI 1; VB str; VI s] => range_obs (of_string str s)
-  | VL [VI 5; VB str; VI s] => range_obs (of_string str s)        (* mode 5: the same while other threads build ranges of their own *)
+  | VL [VI 5; VB str; VI s] => range_obs (of_string str s)
+  | VL [VI 6; VB str; VI s] => range_obs (of_string str s)        (* mode 6: the string is UTF-8; only ASCII digits are digits *)        (* mode 5: the same while other threads build ranges of their own *)
   | VL [VI 2; VI f; VI t; VI s; VI s'] => range_obs (with_size (mk_num f t s) s')
   | VL [VI 3; VB str; VI s; VI s'] => range_obs (with_size (of_string str s) s')
   | VL [VI 4; VI _; VI _; VI _; VI f; VI t; VI s; VI _] => range_obs (mk_num f t s)      (* assignment replaces everything *)
